@@ -86,6 +86,7 @@ func main() {
 			if strings.HasPrefix(s.name, "core_") { // B and C address the core probe's argument positions
 				add(partB(rep, s))
 				add(partC(rep, s))
+				add(partD(rep, s))
 			}
 		}(s)
 	}
@@ -536,3 +537,52 @@ func sameNumber(in, recorded string, isFloat bool) bool {
 // lenientSig names the class "a value the spec calls uncoercible was accepted": the signature is
 // specific to the invalid-value kind and the form, so any other acceptance is still reported.
 func lenientSig(desc, form string) string { return "accepted-" + desc + "-" + form }
+
+// partD: argument directives and null. A directive on an argument definition is part of coercing
+// that argument: it runs for an argument the operation provides - also when what it provides is
+// null (literal or variable) - and, with call_argument_directives_with_null, for an absent one too.
+// Its refusal is reported at the argument's path and the resolver is not called.
+func partD(rep *ev.Reporter, s *srvT) int64 {
+	var evals int64
+	withNull, _ := s.env.Probe.Options["call_argument_directives_with_null"].(bool)
+	for _, c := range []struct {
+		form, query string
+		vars        map[string]any
+		called      bool
+	}{
+		{"null-literal", `{ inp(s: null) }`, nil, true},
+		{"null-variable", `query($v: String) { inp(s: $v) }`, map[string]any{"v": nil}, true},
+		{"value", `{ inp(s: "x") }`, nil, true},
+		{"absent", `{ inp(id: "i") }`, nil, withNull},
+	} {
+		p := univ.SeedPlan{Seed: 11, ArgDirs: true, ForceDir: map[string]int{`inp.s|chk,"s"`: 1}}
+		got := s.srv.Run(context.Background(), &univ.Run{Plan: &p}, c.query, "", diffrun.CopyJSON(c.vars), 30*time.Second)
+		evals++
+		rep.Distinct("argument_cases", fmt.Sprintf("%s|argdir-null|%s", s.name, c.form))
+		invoked := false
+		for _, e := range got.Events {
+			if e.Kind == "resolver" && e.Field == "inp" {
+				invoked = true
+			}
+		}
+		atArg := false
+		if len(got.Payloads) > 0 {
+			for _, e := range got.Payloads[0].Errors {
+				if e.Path == "inp.s" {
+					atArg = true
+				}
+			}
+		}
+		switch {
+		case c.called && (!atArg || invoked):
+			rep.Violate("", map[string]any{"part": "D", "probe": s.name, "form": c.form, "query": c.query, "variables": c.vars, "call_argument_directives_with_null": withNull,
+				"why": fmt.Sprintf("the argument's directive refuses, but: error at the argument's path reported=%v, resolver called=%v", atArg, invoked), "payload": payloadText(got)})
+		case !c.called && (atArg || !invoked):
+			rep.Violate("", map[string]any{"part": "D", "probe": s.name, "form": c.form, "query": c.query, "call_argument_directives_with_null": withNull,
+				"why": fmt.Sprintf("the argument is absent and directives are not to be called for absent arguments, but: error reported=%v, resolver called=%v", atArg, invoked), "payload": payloadText(got)})
+		default:
+			rep.Count("D_argument_directive_"+c.form, 1)
+		}
+	}
+	return evals
+}
